@@ -10,6 +10,9 @@ PS = raft_rules.PS
 GROW = re.compile(r'Vec::<T, A>::(push|extend|extend_from_slice|insert|append|extend_from_within|resize)$|Extend<.*>>::extend$')
 SHRINK = re.compile(r'Vec::<T, A>::(pop|truncate|clear|drain|remove)$')
 ASSUMPTIONS = ['the Raft WAL append is durable when it returns Ok (sync policy is RaftWal\'s own)']
+# an append split into a buffered write and a later sync (seen after inlining helpers that are new): the durability point is the
+# Ok edge of sync_all on the log writer
+SYNC = ('re', r'WalWriter>?::sync_all$|fs::File::sync_(all|data)$')
 
 
 def _persist_wrappers(rep, cr):
@@ -20,7 +23,7 @@ def _persist_wrappers(rep, cr):
         if not re.match(r'tensor_chain::raft::RaftNode::persist_\w+$', name) or name.endswith('persist_term_and_vote'):
             continue
         uses = A.Uses(f)
-        app = A.calls_to(f, ('re', r'RaftWal.*::append$'))
+        app = A.calls_to(f, ('re', r'RaftWal.*::append$')) + A.calls_to(f, SYNC)
         cut = set()
         passthrough = set()
         for c in app:
@@ -69,7 +72,7 @@ def r10a(ctx, rep):
         rep.analysed(f)
         uses = uses or A.Uses(f)
         pcs = [c for w in wrappers for c in A.calls_to(f, w)] + \
-            A.calls_to(f, ('re', r'raft_wal::RaftWal(::<.*>)?::append$'))
+            A.calls_to(f, ('re', r'raft_wal::RaftWal(::<.*>)?::append$')) + A.calls_to(f, SYNC)
         ok_edges = set()
         for pc in pcs:
             ok_edges |= A.call_outcome(f, pc, uses).ok
@@ -101,6 +104,9 @@ def r10a(ctx, rep):
                 start = [bb]
                 # the assignment itself is in bb; a persist earlier in the same block cannot exist (calls end blocks)
             rets = lib.success_return_reachable(f, start, cut_edges=ok_edges, cut_blocks=rb)
+            if rets:
+                # the failed persist may come back as a computed value (`self.sync_wal().is_ok()`): follow the value
+                rets = lib.success_returns_by_value(f, start, cut_edges=ok_edges, cut_blocks=rb)
             if rets:
                 rep.violation('R10a', f, 'log-' + kind, f.loc(line),
                               'entries are added to the in-memory Raft log (%s) and a success return (bb%s) is reachable without a '
@@ -332,6 +338,7 @@ def run(ctx, rep):
     wal_rules.r02g(ctx, rep, ['RaftWal'])
     wal_rules.r02h(ctx, rep, ['RaftWal'])
     wal_rules.r02i(ctx, rep, ['RaftWal'])
+    wal_rules.r02j(ctx, rep, ['RaftWal'])
     r10b_candidates(ctx, rep)
     if ctx.tier == 'thorough':
         witness.run(rep, 'R01a', ['RaftPersistentStateIsPrivate', 'RaftWalWriterIsPrivate'])
